@@ -260,6 +260,12 @@ func judgeBodyIn(d Data, f *hcl.File, spec hcldec.Spec, twoStep, background bool
 		}
 		v, dd := hcldec.Decode(body, spec, ctx)
 		runs = append(runs, run{in, v, dd.HasErrors()})
+		// a second decode of the same expanded body gives the same value with the same marks
+		v2, dd2 := hcldec.Decode(body, spec, ctx)
+		if dd.HasErrors() == dd2.HasErrors() && !dd.HasErrors() && !v.RawEquals(v2) {
+			return engine.Fail("c06.body.second-decode-differs", "body decoded with spec %q, marked variable %s%s:\n%s\n  %s = %s\n  first decode:  %s\n  second decode of the same expanded body: %s",
+				bc.Spec, bc.Var, note, bc.Text, bc.Var, vfmt.V(in), vfmt.V(v), vfmt.V(v2))
+		}
 	}
 	pairs := 0
 	// a run "needs the mark" when it takes part in a pair of error-free runs with different results
